@@ -108,9 +108,13 @@ def select1(ctx: Ctx, chk) -> None:
     is_max = False
     nexts = [n for n in ctx.own_nodes(f) if isinstance(n, ast.Call) and isinstance(n.func, ast.Name) and n.func.id == "next"]
     loops = [n for n in f.node.body if isinstance(n, ast.For)]
-    if len(nexts) == 1 and len(nexts[0].args) == 2 and isinstance(nexts[0].args[0], ast.GeneratorExp) and len(rets) == 1:
-        # shape (a): next((table[k] for k in <order> if <pred>), default)
-        ge = nexts[0].args[0]
+    ge0 = nexts[0].args[0] if len(nexts) == 1 and len(nexts[0].args) == 2 else None
+    if isinstance(ge0, ast.Name):
+        la0 = I.local_assigns(f).get(ge0.id) or []
+        ge0 = la0[0] if len(la0) == 1 and isinstance(la0[0], ast.GeneratorExp) and sum(1 for n in ctx.own_nodes(f) if isinstance(n, ast.Name) and n.id == ge0.id and isinstance(n.ctx, ast.Load)) == 1 else ge0
+    if isinstance(ge0, ast.GeneratorExp) and len(rets) == 1:
+        # shape (a): next((table[k] for k in <order> if <pred>), default)   (the generator possibly bound to a local first)
+        ge = ge0
         if len(ge.generators) != 1 or len(ge.generators[0].ifs) != 1 or not isinstance(ge.generators[0].target, ast.Name):
             raise AnalysisError("SELECT-1: generator shape not recognised")
         gen.elt, gen.iter, gen.pred, gen.default, gen.kname, gen.node = ge.elt, ge.generators[0].iter, ge.generators[0].ifs[0], nexts[0].args[1], ge.generators[0].target.id, ge
